@@ -201,7 +201,7 @@ class NetSim(object):
   MAX_HOPS = 40            # arrivals processed per injected frame
 
   def __init__(self, nsw=1, nports=3, links=None, max_buffers=2, seg=0,
-               dpids=None, transparent=False, miss_send_len=128):
+               dpids=None, transparent=False, miss_send_len=128, hold_down=0):
     self.nsw = nsw
     self.nports = nports
     self.links = dict(links or {})              # (s,p) -> (s2,p2), 1-based
@@ -211,7 +211,7 @@ class NetSim(object):
     self.seg = SEG_PATTERNS[seg % len(SEG_PATTERNS)]
     self._segstate = [0]
     self.dpids = dpids or list(range(1, nsw + 1))
-    self._fresh_controller(transparent)
+    self._fresh_controller(transparent, hold_down)
     self.nodes = {}
     self.emits = []                              # (s, port, bytes) since last take
     for s in range(1, nsw + 1):
@@ -235,7 +235,7 @@ class NetSim(object):
     self._connect()
 
   # -- controller side
-  def _fresh_controller(self, transparent):
+  def _fresh_controller(self, transparent, hold_down=0):
     old = core.components.get("openflow")
     if old is not None:
       try:
@@ -255,7 +255,9 @@ class NetSim(object):
       pass
     core.components.pop("l2_learning", None)
     # the component's own entry point (registers on core.openflow = our nexus)
-    l2mod.launch(transparent=transparent)
+    # (launch options as given: a bool / int, or the strings of a command line; hold_down is always passed -
+    #  it is kept in a module global that outlives the component)
+    l2mod.launch(transparent=transparent, hold_down=hold_down)
     self.l2 = core.components["l2_learning"]
     self.brains = {}
     self.nexus.addListenerByName("ConnectionUp", self._on_up, priority=-1000)
@@ -366,9 +368,13 @@ class NetSim(object):
       n.sw.table.remove_expired_entries()
     self._pump()
 
-  def inject(self, s, p, fr):
+  def inject(self, s, p, fr, content=None):
     """Frame `fr` arrives at port p of switch s.  Returns the list of hops,
-    in processing order; each hop = dict(s, i, pktin, msgs, out, foreign)."""
+    in processing order; each hop = dict(s, i, pktin, msgs, out, foreign).
+    `content` = number of leading bytes that are the frame's content when the
+    rest is Ethernet padding behind a self-delimiting payload (an LLDPDU ends
+    at its End TLV): an emitted copy counts as unmodified when it is `fr`, or
+    `fr` cut somewhere in that padding."""
     hops = []
     todo = [(s, p)]
     while todo:
@@ -379,7 +385,7 @@ class NetSim(object):
       self.emits = []
       for m in self.nodes.values():
         m.c2s, m.s2c = [], []
-      n.sw.rx_packet(ethernet(raw=fr), cp)
+      n.sw.rx_packet(ethernet(raw=fr), cp)    # (every hop receives the original bytes)
       self._pump()
       out, foreign, modified = [], [], 0
       for (es, ep, eb) in self.emits:
@@ -387,7 +393,7 @@ class NetSim(object):
           foreign.append([es, ep])
           continue
         out.append(ep)
-        if eb != fr:
+        if eb != fr and not (content is not None and len(eb) >= content and fr.startswith(eb)):
           modified += 1
         if (es, ep) in self.links:
           todo.append(self.links[(es, ep)])
